@@ -247,11 +247,11 @@ func elementEdits(sd seed, tokens, vals, abvs []string, emit func(string)) {
 	// delete, duplicate, truncate, drop prefix
 	for i := 0; i < n; i++ {
 		j(cat(e[:i], e[i+1:]))
-		j(cat(e[:i+1], e[i:]))       // duplicate in place
-		j(cat(e, []string{e[i]}))    // duplicate at end
-		j(cat([]string{e[i]}, e))    // duplicate at front
-		j(e[:i])                     // truncate before i
-		j(e[i:])                     // drop prefix
+		j(cat(e[:i+1], e[i:]))        // duplicate in place
+		j(cat(e, []string{e[i]}))     // duplicate at end
+		j(cat([]string{e[i]}, e))     // duplicate at front
+		j(e[:i])                      // truncate before i
+		j(e[i:])                      // drop prefix
 		emit(ver.Join(e[:i+1]) + "/") // trailing slash after a prefix
 	}
 	emit(ver.Header)
@@ -311,8 +311,8 @@ func byteEdits(str string, emit func(string)) {
 			emit(string(b[:i]) + string([]byte{byte(c)}) + string(b[i:])) // insert
 		}
 		if i < n {
-			emit(string(b[:i]) + string(b[i+1:]))                 // delete
-			emit(string(b[:i+1]) + string(b[i:]))                 // duplicate
+			emit(string(b[:i]) + string(b[i+1:])) // delete
+			emit(string(b[:i+1]) + string(b[i:])) // duplicate
 			for c := 0; c < 256; c++ {
 				if byte(c) != b[i] {
 					emit(string(b[:i]) + string([]byte{byte(c)}) + string(b[i+1:])) // replace
